@@ -1,3 +1,4 @@
+\* quick: acks and replies for ids nobody uses, duplicated reply, ReceiveReplyCall with a full inbox (Cap = 1)
 SPECIFICATION Spec
 CONSTANTS
   Callers = {P1, P2}
